@@ -3,6 +3,7 @@ import LruMem.Model.MemSize
 import LruMem.Model.Ptr
 import LruMem.Model.Panic
 import LruMem.Model.PanicB
+import LruMem.Model.Arith
 /-!
 # `lrudriver`: replays the harness's operation lines on the Level A model
 
@@ -343,6 +344,11 @@ def processLine (s : St) (line : String) : St × String :=
                 (s.set i (some (r.cache, cb')), resLine s.p full (isSortedOp op) r (some r.cache) lb)
             | none =>
               let (o, r) := pickOracle (step s.p c op) c.shape.items ocap obk allocOk
+              -- an arithmetic step of the operation leaves `usize` (Proofs/Arith.lean): the real code
+              -- panics there (overflow checks are on in the harness build); the harness then empties the cache
+              if !(arithOf s.p c op o).all (fun a => decide (a.ok s.p)) then
+                (s.set i (some ({ c with entries := [], cur := 0, shape := c.shape.cleared }, none)), "ar=ovf")
+              else
               let cb' := cb.map fun b => compactB (stepB s.p b op o)
               (s.set i (some (r.cache, cb')), resLine s.p full (isSortedOp op) r (some r.cache)
                 (match cb' with | some b => lbStr r.cache b | none => "ok"))
